@@ -55,7 +55,7 @@ impl Property for C19 {
         ]
     }
     fn expected_probes(&self) -> Vec<&'static str> {
-        vec!["drain_always", "drain_sometimes", "drain_never", "toggle_checked", "ay_enabled", "many_toggles_in_frame", "multi_frame_call", "rate_low", "rate_high", "szx_load_between_frames", "ay_switched_by_host", "sound_enabled_after_construction"]
+        vec!["drain_always", "drain_sometimes", "drain_never", "toggle_checked", "ay_enabled", "many_toggles_in_frame", "multi_frame_call", "rate_low", "rate_high", "szx_load_between_frames", "ay_switched_by_host", "sound_enabled_after_construction", "snapshot_over_halted_cpu", "szx_taken_inside_a_frame", "sna_load_between_frames"]
     }
 
     fn gen(&self, rng: &mut Rng, tier: Tier, _idx: u64) -> Scenario {
@@ -89,7 +89,9 @@ impl Property for C19 {
             }
             if snaps && rng.chance(1, 2) {
                 // the host loads an SZX snapshot between two frames; it carries the speaker / MIC levels
-                sc.op("snap", &[(rng.u8() & 0x18) as i64, rng.range(0, 7)]);
+                // (format: SZX at the frame start, SZX taken inside a frame, SNA; the program it replaces may be
+                // waiting in a HALT)
+                sc.op("snap", &[(rng.u8() & 0x18) as i64, rng.range(0, 7), rng.range(0, 2), rng.range(0, f - 1), rng.chance(1, 2) as i64]);
             }
         }
         sc
@@ -204,13 +206,36 @@ impl Property for C19 {
                     }
                     ctx.probe("szx_load_between_frames");
                     let fe = (op.arg(0) & 0x18) as u8;
+                    let kind = op.arg(2).clamp(0, 2);
+                    if op.arg(4) != 0 {
+                        // the program being replaced sits in a HALT
+                        ctx.probe("snapshot_over_halted_cpu");
+                        write_mem(&mut e, IDLE + 8, &[0x76]);
+                        let mut st = cpu_state(&mut e);
+                        st.pc = IDLE + 8;
+                        st.to_impl(e.verif_cpu());
+                        let _ = step_public(&mut e).map_err(|x| Fail::new("C19.step", "", x))?;
+                    }
+                    let pre_clk = e.verif_frame_clocks() as i64;
                     let mut s = crate::snapfmt::SnapState::new(m128);
                     s.border = (op.arg(1) & 7) as u8;
                     s.cpu.pc = IDLE;
                     s.cpu.sp = 0x8FF0;
-                    let opt = crate::snapfmt::SzxOptions { fe_hi: fe, fe_low: Some(rng_byte(op.arg(1))), ..Default::default() };
-                    let bytes = crate::snapfmt::write_szx(&s, &opt);
-                    e.load_snapshot(rustzx_core::host::Snapshot::Szx(crate::host::SimAsset::plain(bytes))).map_err(|x| Fail::new("C19.load", "", format!("{:?}", x)))?;
+                    if kind == 1 {
+                        ctx.probe("szx_taken_inside_a_frame");
+                        s.frame_t = op.arg(3).clamp(0, f - 1) as u32;
+                    }
+                    if kind == 2 {
+                        ctx.probe("sna_load_between_frames");
+                        let bytes = if m128 { crate::snapfmt::write_sna128(&s) } else { crate::snapfmt::write_sna48(&s) };
+                        e.load_snapshot(rustzx_core::host::Snapshot::Sna(crate::host::SimAsset::plain(bytes))).map_err(|x| Fail::new("C19.load", "", format!("{:?}", x)))?;
+                        // SNA carries no speaker level: the restored program sets it first thing
+                        e.verif_bus().write_io(0x00FE, fe | s.border);
+                    } else {
+                        let opt = crate::snapfmt::SzxOptions { fe_hi: fe, fe_low: Some(rng_byte(op.arg(1))), ..Default::default() };
+                        let bytes = crate::snapfmt::write_szx(&s, &opt);
+                        e.load_snapshot(rustzx_core::host::Snapshot::Szx(crate::host::SimAsset::plain(bytes))).map_err(|x| Fail::new("C19.load", "", format!("{:?}", x)))?;
+                    }
                     write_mem(&mut e, IDLE, &[0xF3, 0x18, 0xFE]);
                     write_mem(&mut e, OUTS, &[0xD3, 0xFE]);
                     let mut st = cpu_state(&mut e);
@@ -221,8 +246,17 @@ impl Property for C19 {
                     st.halted = false;
                     st.to_impl(e.verif_cpu());
                     // the levels the snapshotted program had set are in force from here on
-                    cur_level = level(fe);
-                    start_level = cur_level;
+                    if kind == 2 {
+                        // (the port write above happened at the current frame time, not at its start)
+                        changes.push((e.verif_frame_clocks() as i64, level(fe)));
+                        start_level = cur_level;
+                        cur_level = level(fe);
+                    } else {
+                        // samples up to the frame time at which the host loaded the file were made before the load
+                        changes.push((pre_clk, level(fe)));
+                        start_level = cur_level;
+                        cur_level = level(fe);
+                    }
                     if ay_active {
                         // the snapshot carries no AY chunk: what the AY plays afterwards is not this property's matter
                     }
